@@ -403,33 +403,33 @@ func builtinStringSplit(call FunctionCall) Value {
 }
 
 // builtinStringSlice returns the string sliced by the given values
-// which are rune not byte offsets, as per String.prototype.slice.
+// which are UTF-16 code unit offsets, as per String.prototype.slice.
 func builtinStringSlice(call FunctionCall) Value {
 	checkObjectCoercible(call.runtime, call.This)
-	target := []rune(call.This.string())
+	target := utf16.Encode([]rune(call.This.string()))
 
 	length := int64(len(target))
 	start, end := rangeStartEnd(call.ArgumentList, length, false)
 	if end-start <= 0 {
 		return stringValue("")
 	}
-	return stringValue(string(target[start:end]))
+	return stringValue(string(utf16.Decode(target[start:end])))
 }
 
 func builtinStringSubstring(call FunctionCall) Value {
 	checkObjectCoercible(call.runtime, call.This)
-	target := []rune(call.This.string())
+	target := utf16.Encode([]rune(call.This.string()))
 
 	length := int64(len(target))
 	start, end := rangeStartEnd(call.ArgumentList, length, true)
 	if start > end {
 		start, end = end, start
 	}
-	return stringValue(string(target[start:end]))
+	return stringValue(string(utf16.Decode(target[start:end])))
 }
 
 func builtinStringSubstr(call FunctionCall) Value {
-	target := []rune(call.This.string())
+	target := utf16.Encode([]rune(call.This.string()))
 
 	size := int64(len(target))
 	start, length := rangeStartLength(call.ArgumentList, size)
@@ -450,7 +450,7 @@ func builtinStringSubstr(call FunctionCall) Value {
 		length = size - start
 	}
 
-	return stringValue(string(target[start : start+length]))
+	return stringValue(string(utf16.Decode(target[start : start+length])))
 }
 
 func builtinStringStartsWith(call FunctionCall) Value {
